@@ -69,7 +69,11 @@ fn main() {
         _ => Tier::Quick,
     };
     let ctx = Ctx::new(def.id, tier);
-    let r = std::panic::catch_unwind(std::panic::AssertUnwindSafe(|| (def.run)(&ctx)));
+    let r = std::panic::catch_unwind(std::panic::AssertUnwindSafe(|| {
+        if ctx.run_regressions(def.replay) {
+            (def.run)(&ctx)
+        }
+    }));
     if r.is_err() {
         eprintln!("INCONCLUSIVE: harness panicked while running {}", def.id);
         std::process::exit(2);
